@@ -1044,6 +1044,72 @@ class Lib:
         p = self.eng.coerce(st, self.eng.eval(st, node.args[0]), "U")
         return VInt(st.ghost["DSTATE"][p])
 
+    def sp_path_inst(self, st, node):
+        """path_inst(p, k[, m[, q]]): the conjunction of the ground instances
+        of the path lemmas (PathModel2.lemma_axioms) at path p, index k,
+        second index m (default k - 1), second path q (default p)"""
+        from .models import PathModel2
+        eng = self.eng
+        vs = [eng.eval(st, a_) for a_ in node.args]
+        p_ = eng.coerce(st, vs[0], "U")
+        k_ = vs[1].t
+        m_ = vs[2].t if len(vs) > 2 else None
+        q_ = eng.coerce(st, vs[3], "U") if len(vs) > 3 else None
+        pm = object.__new__(PathModel2)
+        return VBool(PathModel2.path_inst(pm, p_, k_, m_, q_))
+
+    def sp_axinst(self, st, node):
+        """axinst(F): F must be an instance of an (audited) theory axiom,
+        built with path_inst.  As part of a goal it is an antecedent the
+        solver may use; when the proved clause is assumed afterwards it
+        counts as true (it is valid in the theory), so the clause is assumed
+        without it."""
+        if not (isinstance(node.args[0], ast.Call) and isinstance(
+                node.args[0].func, ast.Name) and node.args[0].func.id in (
+                    "path_inst", "and_")):
+            ok = all(isinstance(n_, (ast.BoolOp, ast.Call, ast.Name,
+                                     ast.Attribute, ast.Constant, ast.BinOp,
+                                     ast.Subscript, ast.Load, ast.And,
+                                     ast.Sub, ast.Add, ast.operator,
+                                     ast.expr_context, ast.keyword))
+                     for n_ in ast.walk(node.args[0]))
+            tops = node.args[0].values if isinstance(
+                node.args[0], ast.BoolOp) else [node.args[0]]
+            if not ok or not all(isinstance(t_, ast.Call) and isinstance(
+                    t_.func, ast.Name) and t_.func.id == "path_inst"
+                    for t_ in tops):
+                raise self.E.Unsupported("axinst() of something that is not "
+                                         "a conjunction of path_inst(...)")
+        if st.ghost.get("__axinst_off"):
+            return VBool(True)
+        return VBool(self.eng.truthy(st, self.eng.eval(st, node.args[0])))
+
+    def sp_hidden(self, st, node):
+        """hidden('NAME', formula): a propositional name for a (large)
+        formula.  Obligations see only the name unless their clause starts
+        with `reveal NAME:`; keeps quantifier-heavy hypotheses out of the
+        queries that do not need them."""
+        name = node.args[0].value
+        hid = st.ghost.setdefault("__hidden", {})
+        if name not in hid:
+            f = self.eng.truthy(st, self.eng.eval(st, node.args[1]))
+            hid[name] = (st.fresh("hid_" + name, z3.BoolSort()), f)
+        return VBool(hid[name][0])
+
+    def sp_cert(self, st, node):
+        """cert(root, rel): ghost label of the list file rel under root"""
+        r = self.eng.coerce(st, self.eng.eval(st, node.args[0]), "U")
+        p = self.eng.coerce(st, self.eng.eval(st, node.args[1]), "U")
+        return VBool(st.ghost["CERT"][r][p])
+
+    def sp_galgs(self, st, node):
+        """the (ghost) tuple of digest algorithms the invariant GINV is
+        stated for; callers tie it to the dataset's configured tuple"""
+        from .models import GALGS_ARR, GALGS_N
+        st.assume(GALGS_N >= 0) if not st.ghost.get("__galgs") else None
+        st.ghost["__galgs"] = True
+        return VList(GALGS_ARR, GALGS_N, "U", None)
+
     def sp_disk_read(self, st, node):
         p = self.eng.coerce(st, self.eng.eval(st, node.args[0]), "U")
         return VU(st.ghost["DISK"][p])
@@ -1461,9 +1527,13 @@ class Lib:
                           if fc.returns else VNone())
                 st.ghost["result"] = result
                 st.locals["result"] = result
-                for cl in fc.ensures:
-                    if not cl.internal:
-                        st.assume(eng.spec_bool(st, cl))
+                st.ghost["__axinst_off"] = True
+                try:
+                    for cl in fc.ensures:
+                        if not cl.internal:
+                            eng.assume_clause(st, cl, eng.spec_bool(st, cl))
+                finally:
+                    st.ghost["__axinst_off"] = False
                 if not st.feasible(z3.BoolVal(True)):
                     # the callee cannot return normally here (legitimate when
                     # another outcome is feasible, e.g. __exit__ with an
@@ -1732,9 +1802,15 @@ class Lib:
         st.locals = loc
         for k, (p, d) in snap["iters"].items():
             st.iters[k].pos, st.iters[k].done = p, d
+        # ... and the allocation frontier is the entry one (allocated(x)
+        # inside old() means: allocated on entry)
+        cur_nr = st.next_ref
+        if snap.get("next_ref") is not None:
+            st.next_ref = snap["next_ref"]
         try:
             return eng.eval(st, node.args[0])
         finally:
+            st.next_ref = cur_nr
             newheap = st.heap
             st.locals, st.heap, st.ghost, st.out = cur[0], cur[1], cur[2], cur[3]
             # arrays first materialised inside old() are entry arrays: keep
